@@ -49,6 +49,15 @@ def check_spec(name, spec, sub_instrs, max_len):
     r, m = query(S, 20000, "c16:feasible")
     if r == "unsat":
         rec["bad"].append("no realizing sequence of length <= init_progr_len = %d with stack <= max_sk_sz = %d exists" % (n, bs))
+        # by how much is the bound short?  (classifies the violation: the rule discounts over-count by one per application)
+        for d in (1, 2, 3):
+            rd, md = query(synth.Synth(spec, n + d, bs), 20000, "c16:deficit")
+            if rd == "sat":
+                rec["deficit"] = d
+                rec["bad"][-1] += "; the shortest realizing sequence is %d longer" % d
+                break
+            if rd != "unsat":
+                break
     elif r == "sat":
         seq = S.sequence(m)
         ok, why, _ = realize.simulate(spec, seq, S.bs)
@@ -155,9 +164,19 @@ def main():
                 key = "bounds:%s:%s" % (rec.get("text", rec["name"]), b[:40])
                 if b.startswith("no realizing sequence of length <= init_progr_len"):
                     # mechanism-level identity: the set of rules whose accumulated discount makes the bound infeasible
+                    # identity of the finding: the rule whose `discount_op += k` over-counts (its operands are consumed and
+                    # need a POP, or the result needs a SWAP).  A violation is attributed to recorded rules only if the bound
+                    # is short by at most one instruction per application of a recorded rule; anything else keeps its own key
                     import re as _re
-                    names = sorted({_re.sub(r"^EVAL.*", "EVAL", r_) for r_ in rec.get("rules", [])})
-                    key = "infeasible-init_progr_len:rules=%s" % ",".join(names)
+                    apps = [_re.sub(r"^EVAL.*", "EVAL", r_) for r_ in rec.get("rules", [])]
+                    d = rec.get("deficit")
+                    known_apps = sorted(a for a in apps if rep.match_known("discount-overcount:rule=" + a))
+                    if d is not None and known_apps and d <= len(known_apps):
+                        key = "discount-overcount:rule=" + known_apps[0]
+                    elif d == 1 and len(set(apps)) == 1:
+                        key = "discount-overcount:rule=" + apps[0]
+                    else:
+                        key = "infeasible-init_progr_len:rules=%s:deficit=%s" % (",".join(sorted(set(apps))), d)
                 rep.violation(key, b + " [sub-block %s, options %s]" % (rec.get("orig"), on),
                               {"options": o, "input": rec.get("text"), "core": rec.get("text")})
     # merge solver statistics of the last message of each worker unit (they are cumulative per process)
